@@ -960,7 +960,7 @@ func (g *G) Steps(label string, maxSteps int) []Step {
 				st.N = uint32(rapid.IntRange(1, 2).Draw(t, label+".mutekind")) // 1 io.Discard, 2 nil
 			}
 		case "sample":
-			st.Sampler = rapid.SampledFrom([]string{"all", "all", "all", "basic"}).Draw(t, label+".smp")
+			st.Sampler = rapid.SampledFrom([]string{"all", "all", "all", "basic", "basic", "none", "nil", "nil"}).Draw(t, label+".smp")
 			st.N = uint32(rapid.IntRange(1, 2).Draw(t, label+".smpn"))
 		}
 		if k == "update" {
